@@ -510,6 +510,10 @@ def jobs(tier):
                 out.append(dict(func="outgoing", params=dict(n=n, periodic=periodic, modifiable=False)))
     for k in (2, 3):
         out.append(dict(func="concurrent_send", params=dict(k=k), weight=3 ** k))
+    # plus one preemption placed at any source line of canopen code (Network.send_message is documented as thread safe)
+    out.append(dict(func="concurrent_send", params=dict(k=2, preempt=1), weight=100))
+    if tier == "thorough":
+        out.append(dict(func="concurrent_send", params=dict(k=3, preempt=1), weight=7000))
     out.append(dict(func="odd_callbacks", params={}))
     out.append(dict(func="listener", params={}))
     for k in (1, 2, 3):
